@@ -655,6 +655,17 @@ def run_case(ctx, i, workdir):
         if rng.random() < 0.25:
             seq.append('RELEASE')
     responsive = rng.random() < 0.4
+    long_session = i % 60 == 17
+    if long_session:
+        # many scripts requested while the first is still running: each is
+        # queued ("Started") and each runs, however long the queue has grown
+        manifest = [{'file_name': 'long{:02d}.ls'.format(k),
+                     'background': 'Linen', 'color': '#222'}
+                    for k in range(rng.choice([18, 20, 24, 34, 40]))]
+        paths = [model_path(e) for e in manifest]
+        seq = ['/' + p for p in paths]
+        responsive = False
+        ctx.count('long_sessions')
     replay = {'manifest': manifest, 'requests': seq, 'responsive': responsive}
     ctx.case('W:{}:{}'.format(json.dumps(manifest, sort_keys=True), seq),
              nontrivial=any(s.startswith('/') and s[1:] in paths for s in seq))
@@ -692,6 +703,14 @@ def run_case(ctx, i, workdir):
                     sc.fail('unlisted-script-executed',
                             'a script not in the manifest ran (hue {})'.format(v))
                     break
+            if long_session and not sc.bad and \
+                    sorted(ran) != sorted(listed_ids):
+                sc.fail('queued-script-never-ran',
+                        '{} scripts were requested one after the other and '
+                        'reported as started; these never ran: {}, these ran '
+                        'more than once: {}'.format(
+                            len(manifest), sorted(listed_ids - set(ran))[:12],
+                            sorted({v for v in ran if ran.count(v) > 1})[:6]))
             ctx.count('scripts_executed', len(ran))
             if env.THREAD_EXCEPTIONS:
                 sc.fail('thread-exception', repr(env.THREAD_EXCEPTIONS[:1]))
